@@ -502,6 +502,7 @@ def findings(ctx, model):
     import opalg_stacks as S_
 
     ctx.known_finding(S_.KNOWN_NEG_INDEX, S_.neg_index_still_fails(G_.Env()))
+    ctx.known_finding(S_.KNOWN_DREP_OA, S_.drep_oa_still_fails(G_.Env()))
 
 
 def replay(ctx, model, case):
